@@ -27,7 +27,7 @@ vars == <<case, outcome, done>>
 
 KindsAll == {"num", "frac", "neg", "big", "str", "offstr", "bytes", "offbytes", "arr", "sparse", "offarr",
              "dict", "mdict", "tup", "etup", "ctup", "itup", "rel", "set", "mixset", "empty", "true",
-             "fn", "nat", "nested", "setarr"}
+             "fn", "nat", "nested", "setarr", "badctup", "oddname"}
 KindsSmall == {"num", "frac", "str", "bytes", "arr", "sparse", "dict", "tup", "ctup", "rel", "set", "empty", "fn"}
 Kinds == IF Small THEN KindsSmall ELSE KindsAll
 
@@ -37,7 +37,7 @@ BinOps == {"+", "-", "*", "/", "%", "-%", "^", "//", "\\", "|", "&", "&~", "~~",
            "order", "rank", "sum", "max", "mean", "median", "min", "filter", "->", "call", "if", "?:"}
 UnOps == {"-", "+", "!", "*", "^", "count", "single", "=>", ">>", ":>", "nest", "nestinv", "unnest", "dot", "dotstr",
           "call0", "callk", "slice", "slice3", "slicefrom", "tupleof", "setof", "arrayof", "dictkey", "dictval",
-          "interp", "interpfmt", "bytesof", "let", "letpat", "cond", "condpat", "fnof", "rel1"}
+          "interp", "interpfmt", "bytesof", "let", "letpat", "cond", "condpat", "fnof", "rel1", "relwith"}
 Toks == {"1", "a", "\"s\"", "(", ")", "[", "]", "{", "}", ",", ":", ";", ".", "...", "\\", "//", "|", "&", "+", "-",
          "*", "/", "%", "<", ">", "=", "!", "?", "@", "$\"", "${", "\"", "<<", ">>", "let", "cond", "_", "->", "=>",
          "{|", "|}", "{:", ":}", "^", "~", "'", "rec", "nest", "where", "//{./f}", "//{./bad}", "%a", "0x"}
